@@ -126,8 +126,6 @@ class SpatialVector(SMUserList):
         """
         return (6,)
 
-    def __getitem__(self, i):
-        return self.__class__(self.data[i])
     # ------------------------------------------------------------------------ #
 
     def __repr__(self):
